@@ -332,7 +332,7 @@ pub fn check_h(l: &mut Local, m: &Mat, rng: &mut Rng) {
 pub fn run(run: &mut Run) {
     run.rule = "H with 1<=r<=40, r<=n<=80 from 12 families (exact staircase, staircase +/- one entry or one entry moved, tridiagonal band with exactly 2r-1 ones, upper bidiagonal, dense random at 5 densities, sparse, invertible dense tail, singular tail where only the LAST column is dependent, duplicate/zero column or zero row, square k=0); oracle = bit-packed rank of the last r columns and own syndrome; messages = 0, all units, 8 random, all-ones; linearity on 4 pairs; non-trivial = encoder built and >= 1 non-zero message encoded, distinct by matrix digest".into();
     run.assumptions = vec!["which encoder type was used is read from the Debug output of Encoder (corroboration only)".into()];
-    let n = if cfg!(miri) { 40 } else { run.tier.n(30_000, 2_000_000) };
+    let n = if cfg!(miri) { 40 } else { run.tier.n(1_500_000, 60_000_000) };
     run.sub("matrices", n, |l, idx, rng| {
         let m = gen_h(rng, idx);
         check_h(l, &m, rng);
